@@ -335,6 +335,7 @@ func init() {
 			Ops     int      `json:"ops"`
 			Kinds   []string `json:"kinds"`
 			StormMs int      `json:"storm_ms"`
+			Notif   bool     `json:"notif"`
 			Scheds  []struct {
 				Kind  string    `json:"kind"`
 				Steps []c12Step `json:"steps"`
@@ -342,8 +343,12 @@ func init() {
 		}
 		readInput(&in)
 		out := struct {
-			Results []c12Result `json:"results"`
+			Results []c12Result   `json:"results"`
+			Notif   []c12NotifOut `json:"notif,omitempty"`
 		}{}
+		if in.Notif {
+			out.Notif = append(out.Notif, c12Notif("streamable"))
+		}
 		for i, sc := range in.Scheds {
 			out.Results = append(out.Results, c12RunSched(fmt.Sprintf("g%s%d", sc.Kind[:1], i), sc.Kind, 1, 0, 0, 0, sc.Steps))
 		}
